@@ -577,6 +577,63 @@ def cutoff_pairing(fn):
     return {"ret": (vname, dname), "stores": stores, "unclassified": unclassified}
 
 
+def _cutoff_ordering(chk, rule, rel, where, fn, facts):
+    """The zeroing must come before every consumer of the zeroed array: no statement that hands
+    the array on (assignment to another variable that flows to the result, or a call that also
+    receives caller-visible storage it can update in place) may be followed by the zeroing."""
+    g = cfgm.CFG(fn)
+    params = set(param_names(fn)) - {"self"}
+    vname, dname = facts["ret"]
+    outflow = flow_closure(fn, vname) | flow_closure(fn, dname)
+    for root in sorted({r["root"] for r in facts["stores"]}):
+        zstores = [r["stmt"] for r in facts["stores"] if r["root"] == root]
+        znodes = {g.node_of(z).id for z in zstores if g.node_of(z) is not None}
+        consumers = []
+        for n in g.nodes:
+            st = n.ast
+            if n.kind != "stmt" or st is None or n.id in znodes:
+                continue
+            if isinstance(st, (ast.Assign, ast.AugAssign, ast.AnnAssign)):
+                value = st.value
+                targets = st.targets if isinstance(st, ast.Assign) else [st.target]
+                if value is None or root not in names_in(value):
+                    continue
+                troots = set()
+                for t in targets:
+                    for e in (t.elts if isinstance(t, (ast.Tuple, ast.List)) else [t]):
+                        troots.add(pf.base_name(e))
+                if troots == {root}:
+                    continue  # x = g(x): reshaping / rescaling of the array itself
+                if troots & outflow:
+                    consumers.append((n, "its value is handed on to `%s`" % ", ".join(sorted(x for x in troots if x))))
+            elif isinstance(st, ast.Expr) and isinstance(st.value, ast.Call):
+                c = st.value
+                argroots = [pf.base_name(a) for a in c.args] + [pf.base_name(k.value) for k in c.keywords]
+                if root not in argroots:
+                    continue
+                shared = sorted({a for a in argroots if a and a != root and a in params})
+                if shared:
+                    consumers.append((n, "the callee also receives %s, which it can update in place from the "
+                                         "un-zeroed array" % ", ".join("`%s`" % x for x in shared)))
+        inst = "%s zeroing of `%s` precedes every consumer" % (where, root)
+        bad = None
+        for n, why in consumers:
+            reach = g.reachable(n.id)
+            late = [z for z in znodes if z in reach and z != n.id]
+            if late:
+                bad = (n, why, g.nodes[sorted(late)[0]].ast)
+                break
+        if bad:
+            n, why, z = bad
+            chk.violation(rule, rel, where, pf.src(n.ast).splitlines()[0][:100], n.ast.lineno,
+                          "`%s` consumes `%s` before the low-density cutoff is applied to it (%s); the zeroing "
+                          "`%s` (line %d) only runs afterwards, so sub-cutoff points still contribute through "
+                          "this statement" % (pf.src(n.ast).splitlines()[0][:80], root, why, pf.src(z), z.lineno),
+                          instance=inst)
+        else:
+            chk.ok(rule, inst, detail="%d consumer(s) all after the zeroing" % len(consumers))
+
+
 def check_cutoff_pairing(chk, prog, targets, rule="cutoff-pair"):
     """Rule shared by C04 (rule 4) and C08 (rule 2); targets: ((relpath, class name), ...)."""
     for rel, cname in targets:
@@ -593,6 +650,7 @@ def check_cutoff_pairing(chk, prog, targets, rule="cutoff-pair"):
                           "points below the low-density cutoff keep their machine-learned contribution",
                           instance="%s all modes" % where)
             continue
+        _cutoff_ordering(chk, rule, rel, where, fn, facts)
         for mode in MODES:
             vs = [r for r in facts["stores"] if r["role"] == "value" and mode in r["modes"]]
             ds = [r for r in facts["stores"] if r["role"] == "derivative" and mode in r["modes"]]
@@ -637,3 +695,221 @@ def check_cutoff_pairing(chk, prog, targets, rule="cutoff-pair"):
             else:
                 chk.ok(rule, inst, detail="value: %s | derivative: %s" % (
                     "; ".join(pf.src(r["stmt"]) for r in vs), "; ".join(pf.src(r["stmt"]) for r in ds)))
+
+
+# ----------------------------------------------------------------------------
+# gradient pairing in the C squared-exponential kernels (C11)
+# ----------------------------------------------------------------------------
+def _ws(s):
+    return " ".join(s.split())
+
+
+def c_grad_pairing(tu, fname):
+    """Symbolic reading of one evaluate_se_kernel* function.  Every value
+    F = (...) * exp(-(se(x1, c1) + se(x2, c2) + ...)) is a *factor* with exponent terms
+    {(x_k, c_k)}; the gradient helper call  add_deriv(g, x, c, exps, F)  adds dF/dx for the
+    term se(x, c), so (x, c) must be one of F's exponent terms, g must address the same
+    channel/point of the gradient array as x does of the input array, and every exponent
+    term of a factor that is accumulated into the output must get its add_deriv.
+    -> dict(calls=[(line, text, ok, why)], missing=[(fac text, term)], n_terms=int)"""
+    inits = {}
+    body = tu.body(fname)
+    params = {p["id"]: p for p in tu.params(fname)}
+    for n in cfacts.walk(body):
+        if n.get("kind") == "VarDecl" and _is_ptr(n.get("type")):
+            ks = cfacts.kids(n)
+            if ks:
+                inits[n["id"]] = ks[0]
+
+    def ptr_norm(e, depth=0):
+        e = cfacts.strip(e)
+        if depth > 8:
+            return None
+        k = e.get("kind")
+        if k == "DeclRefExpr":
+            rid = e["referencedDecl"]["id"]
+            if rid in params and _is_ptr(params[rid].get("type")):
+                return (params[rid]["name"], ())
+            if rid in inits:
+                return ptr_norm(inits[rid], depth + 1)
+            return None
+        if k == "BinaryOperator" and e.get("opcode") == "+":
+            l, r = cfacts.kids(e)
+            for p, o in ((l, r), (r, l)):
+                pn = ptr_norm(p, depth + 1)
+                if pn is not None:
+                    return (pn[0], tuple(sorted(pn[1] + (_ws(tu.text_of(o)),))))
+        return None
+
+    def helper_kind(name):
+        if name not in tu.funcs:
+            return None
+        ps = tu.params(name)
+        ptrs = [i for i, p in enumerate(ps) if _is_ptr(p.get("type"))]
+        dbls = [i for i, p in enumerate(ps) if p.get("type", {}).get("qualType") == "double"]
+        rt = tu.func(name).get("type", {}).get("qualType", "")
+        if rt.startswith("double") and len(ptrs) >= 2:
+            return ("se", ptrs[0], ptrs[1])
+        if rt.startswith("void") and len(ptrs) >= 3 and len(dbls) == 1:
+            return ("grad", ptrs[0], ptrs[1], ptrs[2], dbls[0])
+        return None
+
+    env = {}
+    calls, outs = [], []
+
+    def sym(e):
+        e = cfacts.strip(e)
+        k = e.get("kind")
+        if k == "DeclRefExpr":
+            return env.get(e["referencedDecl"]["id"])
+        if k == "CallExpr":
+            ks = cfacts.kids(e)
+            name = (cfacts.strip(ks[0]).get("referencedDecl") or {}).get("name")
+            hk = helper_kind(name)
+            if hk and hk[0] == "se":
+                a, b = ptr_norm(ks[1 + hk[1]]), ptr_norm(ks[1 + hk[2]])
+                if a is None or b is None:
+                    raise AnalysisError("%s: cannot resolve the pointer arguments of `%s`" % (fname, tu.text_of(e)))
+                return ("se", a, b)
+            if name in ("exp", "expf"):
+                terms = set()
+                for x in cfacts.walk(ks[1]):
+                    if x.get("kind") == "DeclRefExpr":
+                        v = env.get(x["referencedDecl"]["id"])
+                        if v and v[0] == "se":
+                            terms.add((v[1], v[2]))
+                return ("fac", frozenset(terms)) if terms else None
+            return None
+        if k == "BinaryOperator" and e.get("opcode") in ("*", "+", "-", "/"):
+            vs = [sym(c) for c in cfacts.kids(e)]
+            fs = [v for v in vs if v and v[0] == "fac"]
+            if fs:
+                t = frozenset()
+                for v in fs:
+                    t |= v[1]
+                return ("fac", t)
+            return None
+        if k == "UnaryOperator" and e.get("opcode") == "-":
+            return sym(cfacts.kids(e)[0])
+        return None
+
+    seen = set()
+
+    def stmt(n):
+        k = n.get("kind")
+        off = (k, n.get("range", {}).get("begin", {}).get("offset"))
+        if k == "DeclStmt":
+            for d in cfacts.kids(n):
+                ks = cfacts.kids(d)
+                if d.get("kind") == "VarDecl" and ks and not _is_ptr(d.get("type")):
+                    env[d["id"]] = sym(ks[0])
+            return
+        if k in ("BinaryOperator", "CompoundAssignOperator") and n.get("opcode", "") in ("=", "+=", "-=", "*="):
+            l, r = cfacts.kids(n)
+            ls = cfacts.strip(l)
+            if ls.get("kind") == "DeclRefExpr":
+                rid = ls["referencedDecl"]["id"]
+                v = sym(r)
+                if n.get("opcode") != "=":
+                    old = env.get(rid)
+                    fs = [x for x in (old, v) if x and x[0] == "fac"]
+                    t = frozenset()
+                    for x in fs:
+                        t |= x[1]
+                    v = ("fac", t) if fs else None
+                env[rid] = v
+            elif ls.get("kind") == "ArraySubscriptExpr":
+                pn = ptr_norm(cfacts.kids(ls)[0])
+                v = sym(r)
+                if pn is not None and v and v[0] == "fac" and off not in seen:
+                    outs.append((pn, v, tu.text_of(n), tu.line_of(n)))
+            seen.add(off)
+            return
+        if k == "CallExpr":
+            ks = cfacts.kids(n)
+            name = (cfacts.strip(ks[0]).get("referencedDecl") or {}).get("name")
+            hk = helper_kind(name)
+            if hk and hk[0] == "grad" and off not in seen:
+                seen.add(off)
+                g, x, c = (ptr_norm(ks[1 + hk[i]]) for i in (1, 2, 3))
+                f = sym(ks[1 + hk[4]])
+                calls.append((g, x, c, f, _ws(tu.text_of(n)), tu.line_of(n), _ws(tu.text_of(ks[1 + hk[4]]))))
+            return
+        if k in ("CompoundStmt", "ForStmt", "CapturedStmt", "CapturedDecl", "IfStmt", "WhileStmt") \
+                or k.startswith("OMP"):
+            ks = cfacts.kids(n)
+            if k.startswith("OMP"):
+                ks = [c for c in ks if c.get("kind") == "CapturedStmt"][:1]
+            if k == "CapturedDecl":
+                ks = ks[:1]
+            for c in ks:
+                stmt(c)
+
+    stmt(body)
+    res = {"calls": [], "missing": [], "n_terms": 0}
+    covered = {}
+    for g, x, c, f, text, line, ftext in calls:
+        if f is None or f[0] != "fac" or g is None or x is None or c is None:
+            raise AnalysisError("%s: gradient call `%s` not understood (factor or pointer arguments)" % (fname, text))
+        why = None
+        if (x, c) not in f[1]:
+            pairs = ", ".join("se(%s, %s)" % (_p(a), _p(b)) for a, b in sorted(f[1]))
+            why = ("it differentiates `%s` with respect to %s around the control point %s, but the exponent of "
+                   "`%s` is -(%s): that pair is not one of its terms" % (ftext, _p(x), _p(c), ftext, pairs))
+        elif g[1] != x[1]:
+            why = ("the gradient is accumulated at %s but the differentiated input is %s (different spin "
+                   "channel / point offset)" % (_p(g), _p(x)))
+        covered.setdefault(f[1], set()).add((x, c))
+        res["calls"].append((line, text, why is None, why))
+    for pn, v, text, line in outs:
+        for term in sorted(v[1]):
+            res["n_terms"] += 1
+            # a term is covered when some gradient call with a factor containing it differentiates it
+            if not any(term in got and term in terms for terms, got in covered.items()):
+                res["missing"].append((line, text, "se(%s, %s)" % (_p(term[0]), _p(term[1]))))
+    return res
+
+
+def _p(pn):
+    return pn[0] + "".join(" + " + o for o in pn[1])
+
+
+# ----------------------------------------------------------------------------
+# reaching definitions on the statement CFG
+# ----------------------------------------------------------------------------
+def _binds_name(st, name):
+    if isinstance(st, (ast.Assign, ast.AugAssign, ast.AnnAssign)):
+        ts = st.targets if isinstance(st, ast.Assign) else [st.target]
+        return any(isinstance(x, ast.Name) and x.id == name and isinstance(x.ctx, ast.Store)
+                   for t in ts for x in ast.walk(t) if not isinstance(t, ast.Subscript) or x is t)
+    if isinstance(st, (ast.For, ast.AsyncFor)):
+        return any(isinstance(x, ast.Name) and x.id == name for x in ast.walk(st.target))
+    return False
+
+
+def reaching_defs(g, name, use_node):
+    """CFG nodes binding `name` whose binding may reach `use_node` (a cfg.Node), plus
+    None when the entry reaches it without any binding."""
+    defs = [n for n in g.nodes if n.ast is not None and n.kind in ("stmt", "iter") and _binds_name(n.ast, name)]
+    ids = {d.id for d in defs}
+    out = []
+    for d in defs:
+        seen = set()
+        todo = list(g.succ[d.id])
+        hit = False
+        while todo:
+            u = todo.pop()
+            if u in seen:
+                continue
+            seen.add(u)
+            if u == use_node.id:
+                hit = True
+                break
+            if u in ids:
+                continue
+            todo.extend(g.succ[u])
+        if hit:
+            out.append(d)
+    if use_node.id in g.reachable(g.entry.id, blocked=ids - {use_node.id}):
+        out.append(None)
+    return out
